@@ -133,14 +133,21 @@ void sample_progress() {
       bool e = (m.enabled & (dir == 0 ? EV_READ : EV_WRITE)) && data && budget_ok(m, dir);
       if (!e) { m.elig_since[dir] = -1; continue; }
       if (m.elig_since[dir] < 0) { m.elig_since[dir] = now; continue; }
-      int64_t lim = W->tick_us + W->tick_us / 4 + 1000;
-      if (W->ex_stall && m.cfg >= 0) { lim += W->tick_us; if (now - m.elig_since[dir] > lim - W->tick_us && now - m.elig_since[dir] <= lim) verif_known_skipped(dir == 0 ? "C22/read-stalled" : "C22/write-stalled"); }   // known: the refill timer shared by both directions is pushed back when the other direction runs dry
-      if (now - m.elig_since[dir] > lim) {
-        struct bufferevent_private *p = BEV_UPCAST(m.bev);
-        char key[64]; snprintf(key, sizeof key, "C22/%s-stalled", DN[dir]);
-        verif_fail(key, "bev%d %s: enabled, data available, bucket positive and group bucket >= min_share since %lld (now %lld, tick %lld us) but no bytes moved; suspended flags read=0x%x write=0x%x cfg=%d group=%d",
+      int64_t lim = W->tick_us + W->tick_us / 4 + 1000, idle = now - m.elig_since[dir];
+      if (idle <= lim) continue;
+      struct bufferevent_private *p = BEV_UPCAST(m.bev);
+      // root-cause split: a bufferevent with its own cfg may still be waiting for its refill timer, which both directions share
+      // and which is pushed back a whole tick whenever the other direction runs dry (up to one extra tick)  vs.  anything else
+      bool own_timer = m.cfg >= 0;
+      if (own_timer && idle <= lim + W->tick_us) {
+        if (W->ex_stall) { verif_known_skipped(dir == 0 ? "C22/read-refill-delayed" : "C22/write-refill-delayed"); continue; }
+        char key[64]; snprintf(key, sizeof key, "C22/%s-refill-delayed", DN[dir]);
+        verif_fail(key, "bev%d %s: enabled, data available, bucket positive (group bucket >= min_share) since %lld (now %lld, tick %lld us) but nothing moved for more than 1.25 ticks (own refill timer pushed back?); flags read=0x%x write=0x%x cfg=%d group=%d",
                    i, DN[dir], (long long)m.elig_since[dir], (long long)now, (long long)W->tick_us, p->read_suspended, p->write_suspended, m.cfg, m.in_group);
       }
+      char key[64]; snprintf(key, sizeof key, "C22/%s-stalled", DN[dir]);
+      verif_fail(key, "bev%d %s: enabled, data available, bucket positive and group bucket >= min_share since %lld (now %lld, tick %lld us) but no bytes moved; suspended flags read=0x%x write=0x%x cfg=%d group=%d",
+                 i, DN[dir], (long long)m.elig_since[dir], (long long)now, (long long)W->tick_us, p->read_suspended, p->write_suspended, m.cfg, m.in_group);
     }
   }
 }
@@ -156,7 +163,7 @@ int64_t wait_hook(const struct sim_wait_info *wi, void *) {
   drain_peers();
   sample_progress();
   int64_t now = sim_now_us();
-  if (++W->run_waits > 3000) { W->aborted = true; event_base_loopbreak(W->base); return 0; }
+  if (++W->run_waits > 1200) { W->aborted = true; event_base_loopbreak(W->base); return 0; }
   if (wi->nready > 0) return 20;
   int64_t req = wi->timeout_us;
   if (req == 0) return 0;
@@ -173,11 +180,13 @@ int64_t wait_hook(const struct sim_wait_info *wi, void *) {
 
 void read_cb(struct bufferevent *bev, void *) { struct evbuffer *in = bufferevent_get_input(bev); evbuffer_drain(in, evbuffer_get_length(in)); }
 void write_cb(struct bufferevent *bev, void *) { if (W && !W->teardown && evbuffer_get_length(bufferevent_get_output(bev)) < 20000) bufferevent_write(bev, BLOB, 40000); }
-void event_cb(struct bufferevent *, short what, void *) { TR("    eventcb what=0x%x", what); if (W) W->aborted = true; }
+void event_cb(struct bufferevent *, short what, void *arg) { TR("    eventcb what=0x%x", what); if (!W || W->teardown) return;
+  // the peers never close and never fail: any EOF/ERROR event is invented by the library (e.g. a zero-byte read taken for EOF)
+  verif_fail("C22/spurious-eof-or-error", "bev%d got event 0x%x although its peer neither closed nor failed", ((MBev *)arg)->idx, what); }
 
 const int64_t RATES[] = {1, 7, 64, 100, 500, 1000, 2000};
 const int64_t TICKS[] = {5000, 10000, 100000, 1000000};
-const int64_t SINGLES[] = {0, 1, 50, 100, 1000, 5000, 20000};
+const int64_t SINGLES[] = {0, 16, 50, 100, 1000, 5000, 20000};
 const int64_t DECRS[] = {1, 10, 100, 1000, 5000, -1, -10, -100, -1000, -5000};
 }  // namespace
 
@@ -188,7 +197,7 @@ extern "C" int LLVMFuzzerTestOneInput(const uint8_t *data, size_t size) {
   verif_case_begin("C22");
   Src s(data, size);
   World w; W = &w; w.s = &s;
-  w.ex_single_w = verif_known("C22/max-single-write-exceeded"); w.ex_single_r = verif_known("C22/max-single-read-exceeded"); w.ex_stall = verif_known("C22/read-stalled") || verif_known("C22/write-stalled");
+  w.ex_single_w = verif_known("C22/max-single-write-exceeded"); w.ex_single_r = verif_known("C22/max-single-read-exceeded"); w.ex_stall = verif_known("C22/read-refill-delayed") || verif_known("C22/write-refill-delayed");
   int64_t live0 = sim_mem_live_blocks;
   w.tick_us = TICKS[s.below(4)];
   sim_clock_enable(SIM_START_US + s.below(1000) * 997);
@@ -259,7 +268,7 @@ extern "C" int LLVMFuzzerTestOneInput(const uint8_t *data, size_t size) {
         CHECK(r == 0, "C22/group-decrement-failed", "r=%d", r);
         if (d < 0) w.ga[dir].credit[cur_tick()] += -d;
         break; }
-      case 8: { int64_t v = (int64_t[]){0, 1, 16, 64, 300, 5000}[s.below(6)];
+      case 8: { int64_t v = (int64_t[]){1, 2, 16, 64, 300, 5000}[s.below(6)];   // 0 is not generated: a zero quantum lets the per-member share round down to 0 bytes (see props/C22.json)
         int r = bufferevent_rate_limit_group_set_min_share(w.grp, v); TR("set_min_share %lld -> %d (effective %lld)", (long long)v, r, (long long)w.grp->min_share);
         CHECK(r == 0, "C22/set-min-share-failed", "r=%d", r);
         int64_t eff = v; for (int d = 0; d < 2; d++) if (eff > w.c[w.gcfg].rate[d]) eff = w.c[w.gcfg].rate[d];
